@@ -506,5 +506,13 @@ def r05_10(ctx):
     delegate(ctx, c01.r01_4, lambda c: "defaults" in c)
 
 
+def r05_11(ctx):
+    """R05.11 the cached selection is dropped whenever a member changes: Symbol/Choice._rec_invalidate() clear their own caches and walk
+    all dependents unconditionally (C03 R03.5) - a member whose value was never read still has the choice depending on its visibility."""
+    from . import c03
+    from .common import delegate
+    delegate(ctx, c03.r03_5, lambda c: '_rec_invalidate' in c)
+
+
 def rules():
-    return [("R05.10", r05_10, 1), ("R05.9", r05_9, 2), ("R05.8", r05_8, 1), ("R05.7", r05_7, 9), ("R05.1", r05_1, 2), ("R05.2", r05_2, 4), ("R05.3", r05_3, 3), ("R05.4", r05_4, 3), ("R05.5", r05_5, 6), ("R05.6", r05_6, 9)]
+    return [("R05.11", r05_11, 4), ("R05.10", r05_10, 1), ("R05.9", r05_9, 2), ("R05.8", r05_8, 1), ("R05.7", r05_7, 9), ("R05.1", r05_1, 2), ("R05.2", r05_2, 4), ("R05.3", r05_3, 3), ("R05.4", r05_4, 3), ("R05.5", r05_5, 6), ("R05.6", r05_6, 9)]
